@@ -636,7 +636,7 @@ func (fc *funcContext) translateExpr(expr ast.Expr) *expression {
 			}
 			return fc.formatExpr("%e.%s", e.X, strings.Join(fields, "."))
 		case types.MethodVal:
-			return fc.formatExpr(`$methodVal(%s, "%s")`, fc.makeReceiver(e), sel.Obj().(*types.Func).Name())
+			return fc.formatExpr(`$methodVal(%s, "%s")`, fc.makeBoundReceiver(e), sel.Obj().(*types.Func).Name())
 		case types.MethodExpr:
 			fc.pkgCtx.DeclareDCEDep(sel.Obj(), inst.TNest, inst.TArgs)
 			if _, ok := sel.Recv().Underlying().(*types.Interface); ok {
@@ -1005,6 +1005,17 @@ func (fc *funcContext) delegatedCall(expr *ast.CallExpr) (callable *expression, 
 }
 
 func (fc *funcContext) makeReceiver(e *ast.SelectorExpr) *expression {
+	return fc.makeReceiverExpr(e, false)
+}
+
+// makeBoundReceiver returns the receiver of a method value: it is evaluated when
+// the method value is created, so a value receiver reached through a pointer is
+// loaded at that moment and not when the method value is called.
+func (fc *funcContext) makeBoundReceiver(e *ast.SelectorExpr) *expression {
+	return fc.makeReceiverExpr(e, true)
+}
+
+func (fc *funcContext) makeReceiverExpr(e *ast.SelectorExpr, bound bool) *expression {
 	sel, _ := fc.selectionOf(e)
 	if !sel.Obj().Exported() {
 		fc.pkgCtx.DeclareDCEDep(sel.Obj(), nil, nil)
@@ -1034,7 +1045,18 @@ func (fc *funcContext) makeReceiver(e *ast.SelectorExpr) *expression {
 		x = fc.setType(&ast.UnaryExpr{Op: token.AND, X: x}, recvType)
 	}
 	if isPointer && !pointerExpected {
-		x = fc.setType(x, methodsRecvType)
+		switch methodsRecvType.Underlying().(type) {
+		case *types.Struct, *types.Array:
+			// The pointer is the object itself, which gets cloned below.
+			x = fc.setType(x, methodsRecvType)
+		default:
+			if bound {
+				recvType = methodsRecvType
+				x = fc.setType(&ast.StarExpr{X: x}, recvType)
+			} else {
+				x = fc.setType(x, methodsRecvType)
+			}
+		}
 	}
 
 	recv := fc.translateImplicitConversionWithCloning(x, methodsRecvType)
